@@ -250,3 +250,24 @@ fault("C09.tree-no-reversed", "C09", TR, "    def __reversed__(self):\n        r
 fault("C09.index-from-named", "C09", GR, "        for idx, a in enumerate(assignments):\n            if a.name:\n                a.index = idx", "        for idx, a in enumerate([x for x in assignments if x.name]):\n            if a.name:\n                a.index = idx", "R09.alt-index")
 benign("C09.b-ternary", "C09", P, "            if len(subresults) == 1:\n                if debug:\n                    h_print(\"Unpacking a single subresult.\", level=1)\n                result = subresults[0]\n            else:\n                if debug:\n                    h_print(\"Result is a list of subresults.\", level=1)\n                result = subresults",
        "            result = subresults[0] if len(subresults) == 1 else subresults")
+
+# ---------------------------------------------------------------- C08
+fault("C08.reduce-layout-ahead", "C08", P, "                        layout_content=start_reduction_head.layout_content,\n                        layout_content_ahead=head.layout_content_ahead,",
+      "                        layout_content=start_reduction_head.layout_content,\n                        layout_content_ahead=start_reduction_head.layout_content_ahead,", "R08.roles-lr")
+fault("C08.empty-start", "C08", P, "                        start_position=head.end_position,\n                        end_position=head.end_position,", "                        start_position=head.position,\n                        end_position=head.end_position,", "R08.roles-lr")
+fault("C08.reduce-layout-last", "C08", P, "layout_content=start_reduction_head.layout_content,", "layout_content=head.layout_content,", "R08.roles-lr")
+fault("C08.shift-end-value-len", "C08", P, "new_position = head.position + len(head.token_ahead)", "new_position = head.position + len(head.token_ahead.value)", None)
+fault("C08.start-no-span", "C08", P, "            extra,\n            start_position=position,\n            end_position=position,\n        )", "            extra,\n        )", None)
+fault("C08.glr-shift-layout", "C08", G, "                    layout_content=head.layout_content_ahead,\n                    debug=self.debug,\n                )\n                parent = Parent(", "                    layout_content=head.layout_content,\n                    debug=self.debug,\n                )\n                parent = Parent(", "R08.roles-glr")
+fault("C08.glr-reduce-end", "C08", G, "                            parent.start_position,\n                            last_parent.end_position,", "                            parent.start_position,\n                            parent.end_position,", "R08.roles-glr")
+fault("C08.glr-fork-no-layout-ahead", "C08", G, "                layout_content_ahead=self.layout_content_ahead,\n                debug=self.debug,\n            )\n            new_head.parents", "                debug=self.debug,\n            )\n            new_head.parents", "R08.roles-glr")
+fault("C08.glr-fork-token-pos", "C08", G, "                self.state,\n                self.position,\n                self.frontier,\n                self.extra,\n                token_ahead=token,", "                self.state,\n                token.position,\n                self.frontier,\n                self.extra,\n                token_ahead=token,", "R08.roles-glr")
+fault("C08.skipws-order", "C08", P, "                layout_content_ahead = input_str[head.position : pos]\n                head.position = pos", "                head.position = pos\n                layout_content_ahead = input_str[head.position : pos]", "R08.layout-slice")
+fault("C08.skipws-ws-slice", "C08", P, "            layout_content_ahead = input_str[old_pos : head.position]", "            layout_content_ahead = input_str[old_pos : head.position - 1]", None)
+fault("C08.skipws-no-store", "C08", P, "        head.layout_content_ahead = layout_content_ahead\n", "        if layout_content_ahead:\n            head.layout_content_ahead = layout_content_ahead\n", "R08.layout-slice")
+fault("C08.ic-literal", "C08", GR, "            if matched.lower() == self.value_cmp:\n                return matched", "            if matched.lower() == self.value_cmp:\n                return self.value", "R08.value-is-slice")
+fault("C08.regex-search", "C08", GR, "m = self.regex.match(in_str, pos)", "m = self.regex.search(in_str, pos)", "R08.value-is-slice")
+fault("C08.merge-context", "C08", G, "    def merge(self, other):\n        self.possibilities.extend(other.possibilities)", "    def merge(self, other):\n        for p in other.possibilities:\n            p.context = self\n        self.possibilities.extend(other.possibilities)", "R08.context-owner")
+fault("C08.obj-swap", "C08", "parglare/actions.py", "instance._pg_end_position = context.end_position", "instance._pg_end_position = context.start_position", "R08.context-owner")
+benign("C08.b-positional-kw", "C08", P, "                    state=act.state,\n                    frontier=head.frontier + 1,\n                    token=head.token_ahead,", "                    act.state,\n                    head.frontier + 1,\n                    token=head.token_ahead,")
+benign("C08.b-inline-new-position", "C08", P, "                    position=new_position,\n                    start_position=head.position,\n                    end_position=new_position,", "                    position=head.position + len(head.token_ahead),\n                    start_position=head.position,\n                    end_position=head.position + len(head.token_ahead),")
